@@ -224,9 +224,9 @@ Fixpoint undigits (s : str) : option Decimal.uint :=
           else None
       end
   end.
-(* int(s) restricted to [+-]?[0-9]+ ; anything else is ValueError (None).  Python's int() also accepts
-   surrounding blanks, '_' separators and non-ASCII digits: never produced by write_cache *)
-Definition parse_int (s : str) : option Z :=
+(* int(s) for s = [+-]?[0-9]+ ; anything else is ValueError (None).  (parse_int below strips blanks first, as
+   int() does.)  Python's int() also accepts '_' separators and non-ASCII digits: never produced by write_cache *)
+Definition parse_int0 (s : str) : option Z :=
   match s with
   | [] => None
   | c :: s' =>
@@ -251,6 +251,7 @@ Fixpoint lstrip (s : str) : str :=
   | c :: s' => if is_space c then lstrip s' else s
   end.
 Definition strip (s : str) : str := rev (lstrip (rev (lstrip s))).
+Definition parse_int (s : str) : option Z := parse_int0 (strip s).
 (* s.split(sep) *)
 Fixpoint split_on (sep : Z) (s : str) : list str :=
   match s with
